@@ -38,8 +38,14 @@ def models(tier, seed):
             ("3 levels", cfg(5, seed % 5, N0=3, T0=2, MaxLev=3, MaxFine=1))]
 
 
-def build(chk, sc, cfgseed, axes, ext0=3, scale=(1, 2)):
+def build(chk, sc, cfgseed, axes, ext0=None, scale=None):
     rng = random.Random(cfgseed)
+    # extent of the extruded axis and cells per lattice cell across the plane: drawn, so that no fixed size hides a size rule
+    if ext0 is None:
+        ext0 = [3, 4, 5][cfgseed % 3]
+    if scale is None:
+        # (at least three cells along each in-plane axis: the tool derives the cell size of its grids from grid points 2 and 3)
+        scale = (1, [2, 3][(cfgseed // 3) % 2])
     cfg_ = gamma.Config.draw(rng, ndims=3, payload="tame")
     lat = lattice.Lattice(sc["mesh"], sc["n0"], sc["t0"], axes=axes, ext0=ext0, ext_cut=True, scale=scale)
     cn = axes[0]
